@@ -1241,15 +1241,18 @@ def add_invariant_checks(cls: ClassT) -> None:
             init_func = value
             continue
 
-        if (
-            name != "__setattr__"
-            and InvariantCheckEvent.CALL not in last_invariant.check_on
+        # NOTE: We have to consider all the invariants, not only the last one. When the meta-class adds
+        # the checks to a sub-class, all the inherited invariants arrive at once and the functions defined
+        # in the sub-class have not been decorated yet.
+        if name != "__setattr__" and not any(
+            InvariantCheckEvent.CALL in an_invariant.check_on
+            for an_invariant in cls.__invariants__  # type: ignore
         ):
             continue
 
-        if (
-            name == "__setattr__"
-            and InvariantCheckEvent.SETATTR not in last_invariant.check_on
+        if name == "__setattr__" and not any(
+            InvariantCheckEvent.SETATTR in an_invariant.check_on
+            for an_invariant in cls.__invariants__  # type: ignore
         ):
             continue
 
